@@ -334,7 +334,12 @@ func visitInstr(fr *frame, instr ssa.Instruction) continuation {
 		fr.env[instr] = fr.i.fieldAddr(instr, fr.get(instr.X))
 
 	case *ssa.Field:
-		fr.env[instr] = fr.get(instr.X).(structure)[instr.Field]
+		st := fr.get(instr.X).(structure)
+		if pend, ok := st[instr.Field].(*lazyPending); ok {
+			ft := instr.X.Type().Underlying().(*types.Struct).Field(instr.Field).Type()
+			st[instr.Field] = fr.i.materialise(pend, ft)
+		}
+		fr.env[instr] = st[instr.Field]
 
 	case *ssa.IndexAddr:
 		fr.env[instr] = fr.i.indexAddr(fr.get(instr.X), fr.get(instr.Index))
@@ -639,6 +644,9 @@ func runFrame(fr *frame) {
 				p.steps++
 				if p.steps > p.ex.opts.MaxSteps {
 					panic(engineError{"step budget exceeded (unwinding assertion): " + fr.fn.String()})
+				}
+				if p.steps&1023 == 0 && p.ex.abort {
+					panic(engineError{"aborted by the memory watchdog"})
 				}
 			}
 			if visitInstr(fr, instr) == kReturn {
